@@ -97,6 +97,15 @@ pub struct SimSource {
 }
 
 impl SimSource {
+    /// a source over `data[from..]` (offsets reported to the reader start at 0 again)
+    pub fn new_from(data: Rc<Vec<u8>>, from: usize, cfg: &Cfg, seam: Seam) -> SimSource {
+        let tail = Rc::new(data[from.min(data.len())..].to_vec());
+        let mut c = cfg.clone();
+        c.cuts = cfg.cuts.iter().filter(|x| **x > from).map(|x| x - from).collect();
+        // faults are scheduled by global call index and stay as they are
+        SimSource::new(tail, &c, seam)
+    }
+
     pub fn new(data: Rc<Vec<u8>>, cfg: &Cfg, seam: Seam) -> SimSource {
         let mut cuts = cfg.cuts.clone();
         cuts.sort();
